@@ -20,7 +20,7 @@ From OV Require Import Base.Panic.
 From OV Require Import Base.Arith.
 From OV Require Import Inst.QcInst.
 Import ListNotations.
-Open Scope Z_scope.
+Local Open Scope Z_scope.
 
 (* ================================================================ division rounded to nearest, ties to even *)
 
@@ -68,8 +68,21 @@ Proof.
   rewrite Z.even_add, E. reflexivity.
 Qed.
 
-Close Scope Z_scope.
-Open Scope Q_scope.
+(* the error is half a unit only at a tie, and then the result is even *)
+Lemma rne_div_half_even a b :
+  0 < b -> Z.abs (2 * (b * rne_div a b - a)) = b -> Z.even (rne_div a b) = true.
+Proof.
+  intros Hb. unfold rne_div. pose proof (Z.div_mod a b ltac:(lia)) as E.
+  pose proof (Z.mod_pos_bound a b Hb) as Hr.
+  set (f := a / b) in *. set (r := a mod b) in *.
+  destruct (Z.compare_spec (2 * r) b) as [H|H|H].
+  - intros _. destruct (Z.even f) eqn:Ef; [exact Ef|]. rewrite Z.even_add, Ef. reflexivity.
+  - intros H'. lia.
+  - intros H'. lia.
+Qed.
+
+Local Close Scope Z_scope.
+Local Open Scope Q_scope.
 Definition rneQ (q : Q) : Z := rne_div (Qnum q) (Zpos (Qden q)).
 
 Lemma rneQ_proper q q' : q == q' -> rneQ q = rneQ q'.
@@ -102,6 +115,13 @@ Qed.
 
 Lemma rneQ_abs_err q : Qabs (inject_Z (rneQ q) - q) <= 1 # 2.
 Proof. apply Qabs_Qle_condition. pose proof (rneQ_err q). lra. Qed.
+
+Lemma rneQ_half_even q : Qabs (inject_Z (rneQ q) - q) == 1 # 2 -> Z.even (rneQ q) = true.
+Proof.
+  destruct q as [a b]. unfold rneQ. cbn [Qnum Qden]. intros H.
+  apply rne_div_half_even; [lia|]. revert H.
+  unfold Qeq, Qabs, Qminus, Qplus, Qopp, inject_Z. cbn [Qnum Qden]. lia.
+Qed.
 
 (* ---------------------------------------------------------------- signs *)
 Definition Qneg (q : Q) : bool := (Qnum q <? 0)%Z.
@@ -594,3 +614,13 @@ Qed.
 
 Lemma rnd_sci_err N (x : Qc) : Qabs (rnd_sci N x - x) <= Qabs x * ((1 # 2) / inject_Z (p10 N)).
 Proof. unfold rnd_sci. rewrite Q2Qc_this. apply sci_rel_err. Qed.
+
+(* the parsers have a single panic: f64::from_str(..).unwrap() *)
+Lemma parse_fix_panic N t k : parse_fix N t = Panic k -> k = Unwrap /\ (ft_int t < 0)%Z.
+Proof.
+  unfold parse_fix. destruct (Z.ltb_spec (ft_int t) 0); [|discriminate]. now intros [= <-].
+Qed.
+Lemma parse_sci_panic N t k : parse_sci N t = Panic k -> k = Unwrap /\ (st_mant t < 0)%Z.
+Proof.
+  unfold parse_sci. destruct (Z.ltb_spec (st_mant t) 0); [|discriminate]. now intros [= <-].
+Qed.
